@@ -1095,6 +1095,16 @@ def j(ctx):
 
 # ---------------------------------------------------------------------------
 # seeded faults (sensitivity self-test)
+@R.clause("C09.k", "a transport error reported for one peer stops only that peer's requests in flight (shared with C02.e)")
+def k_shared(ctx):
+    """'A failure in one request neither affects requests in flight at the same time': an independently written breaking
+    change dropped the per-remote filter when TokenManager.dispatch_error collects the stoppers of incoming requests,
+    so an error for peer A cancelled the handler of peer B's request, which then never got a response.  The
+    obligations are those of C02.e."""
+    from . import c02
+    c02.e(ctx)
+
+
 F_PIPE = "aiocoap/pipe.py"
 F_PROTO = "aiocoap/protocol.py"
 F_RES = "aiocoap/resource.py"
@@ -1157,3 +1167,5 @@ R.seed("C09.j", F_ERR, "return Message(code=self.code, payload=self.message.enco
 R.seed("C09.j", F_ERR, "return Message(code=self.code, payload=self.message.encode(\"utf8\"))", "return Message(code=self.code, payload=repr(self).encode(\"utf8\"))", "diagnostic payload replaced")
 R.seed("C09.j", F_ERR, "class HopLimitReached(ConstructionRenderableError):\n    code = codes.HOP_LIMIT_REACHED", "class HopLimitReached(ConstructionRenderableError):\n    code = codes.GATEWAY_TIMEOUT")
 R.seed("C09.j", F_CODES, "    HOP_LIMIT_REACHED = (5 << 5) + 8\n", "    HOP_LIMIT_REACHED = (5 << 5) + 7\n")
+
+R.seed("C09.k", "aiocoap/tokenmanager.py", "        for (_, _r), (_, stopper) in self.incoming_requests.items():\n            if remote == _r:\n                stoppers.append(stopper)", "        stoppers.extend(stopper for (_, stopper) in self.incoming_requests.values())", "an error for one peer cancels every peer's handlers")
